@@ -1692,7 +1692,8 @@ pub fn gen(prop: &str, rng: &mut Rng, quick: bool, st: &mut Stats) -> Option<Vec
             // histories that start from a range-filtered open of an archive with leaf directories, the range touching
             // the first / last id of a leaf
             if prop == "C04" {
-                let bytes = crate::p_io::write_plain("sync", &seeded_spill_ops(rng.next(), 9000, Compression::None)).expect("write");
+                // (consecutive ids, so that the id just before a leaf's first id exists; and a sparse archive)
+                for bytes in [crate::p_io::write_plain("sync", &regular_ops(9000, Compression::None)).expect("write"), crate::p_io::write_plain("sync", &seeded_spill_ops(rng.next(), 9000, Compression::None)).expect("write")] {
                 if let Ok(v) = spec::parse(&bytes, false) {
                     let firsts: Vec<u64> = v.root.iter().filter(|e| e.run == 0).map(|e| e.id).collect();
                     let ids: Vec<u64> = v.tile_entries.iter().map(|e| e.id + u64::from(e.run) - 1).collect();
@@ -1710,6 +1711,7 @@ pub fn gen(prop: &str, rng: &mut Rng, quick: bool, st: &mut Stats) -> Option<Vec
                             st.bump("histories_from_partial_open_at_leaf_boundaries");
                         }
                     }
+                }
                 }
             }
             // long random histories, optionally starting from a foreign archive
